@@ -1,0 +1,12 @@
+//go:build verif
+
+// Contracts for govc (the /verif contract verifier). Comment-only: with the build tag off this file is not
+// compiled, with it on it adds no code.
+package repository
+
+// C28: whatever the manifest document holds, GetManifest hands its versions out highest first (the order of
+// Masterminds/semver, an abstract total preorder `rank` here) — Install's "first match" relies on it.
+
+//@ spec manifestSorted(vs []Version) bool = forall(p, 0, len(vs), forall(q, p, len(vs), extInt("semver.rank", addr(vs[p].Number)) >= extInt("semver.rank", addr(vs[q].Number))))
+//@ func GetManifest
+//@   ensures sorted: result1 == nil ==> manifestSorted(result0.Versions)
